@@ -2,6 +2,10 @@
 from . import common as C
 
 HEADER = 'From WM Require Import Base.Prelude Message.Model Handler.RouterHandle Corr.C02.\n'
+LOOP_HEADER = 'From WM Require Import Base.Prelude Message.Model Handler.RouterHandle Handler.RouterLoop Corr.C02 Corr.C02Loop.\n'
+LOOP_KIND = {1: 'the model rejects the observed schedule (an event of a message the loop did not receive, an event after the message\'s Done, a receive after the loop ended)',
+             2: 'after the observed schedule some handleMessage thread of the model is unfinished or not all messages were received',
+             3: 'the model run under the observed schedule produces a different interleaved log', 4: 'final settlements differ from the model'}
 PK = ['PubReal', 'PubDisabled', 'PubNil', 'PubReal']      # 3: the publisher is the subscriber object itself, same topic (a real publisher for the model)
 PKN = ['publisher', 'AddNoPublisherHandler', 'nil publisher', 'publisher = the subscriber object, publish topic = subscribe topic']
 PB = ['PubAccept', 'PubError', 'PubPanic']
@@ -13,8 +17,9 @@ TRUSTED_BASE = [
     'Handler/RouterHandle.v is hand-written from message/router.go handleMessage/publishProducedMessages and tied to it by this check',
     'the return value of the Router\'s own Ack()/Nack() call is not observable and is projected out of the comparison',
 ]
-ASSUMPTIONS = ['per-message independence of handleMessage instances is structural in the model; the harness runs 1..8 messages in flight '
-               'through one handler and compares every per-message trace']
+ASSUMPTIONS = ['the run loop model (Handler/RouterLoop.v) has one atomic step per observable event of a handleMessage goroutine; the harness runs 1..8 messages in flight '
+               'through one handler, compares every per-message trace AND replays the ONE interleaved log of every handler (60 messages each) on the loop model; '
+               'the order of the interleaved log is the order in which the events were stamped under one mutex (each event stamped by the goroutine that performs it)']
 
 def nlist(l):
     return C.coq_list([C.coq_N(x) for x in l])
@@ -36,6 +41,45 @@ def case_term(c):
     evs = [event_term(e) for e in c['trace']]
     return '(C02 %s %s %s %s (CR %s %s) %s %s)' % (ST[c.get('arrive', 0)], PK[c['pubkind']], PB[c['pub']], mws, PRE[c['pre']], out, C.coq_list(evs), ST[c['final']])
 
+def chain_term(c):
+    outs = nlist(c['outs'] or [])
+    out = ['(Ret %s)' % outs, '(Fail %s)' % outs, 'Panic'][c['outkind']]
+    mws = C.coq_list(['MwPass' if w == 0 else '(MwAppend %s)' % C.coq_N(50 + i) for i, w in enumerate(c['mws'])])
+    return '(mws_apply %s (CR %s %s))' % (mws, PRE[c['pre']], out)
+
+def loop_case(g, byid):
+    """one handler's interleaved log -> (Gallina term, description) or None if it cannot be written as a model log"""
+    order = [e['id'] for e in g['log'] if e['k'] == 'recv']
+    if len(set(order)) != len(order) or any(i not in byid for i in order):
+        return None
+    num = {cid: k for k, cid in enumerate(order)}
+    evs = []
+    for e in g['log']:
+        if e['k'] == 'close':
+            evs.append('GClose'); continue
+        if e['id'] not in num:
+            return None
+        i = num[e['id']]
+        if e['k'] == 'recv': evs.append('(GRecv %d)' % i)
+        elif e['k'] == 'done': evs.append('(GDone %d)' % i)
+        else:
+            t = event_term(e['ev'])
+            if t is None:
+                return None
+            evs.append('(GEv %d %s)' % (i, t))
+    msgs = ['(LM (arrived %s) %s %s)' % (ST[byid[i].get('arrive', 0)], PB[byid[i]['pub']], chain_term(byid[i])) for i in order]
+    finals = [ST[byid[i]['final']] for i in order]
+    term = '(LC %s %s %s %s)' % (PK[g['pubkind']], C.coq_list(msgs), C.coq_list(finals), C.coq_list(evs))
+    return term, dict(publisher=PKN[g['pubkind']], middlewares=g['mws'], messages_in_receive_order=order,
+                      interleaved_log=[[e['k'], e.get('id', '')] + (e.get('ev') or []) for e in g['log']][:400])
+
+def max_in_flight(g):
+    cur = best = 0
+    for e in g['log']:
+        if e['k'] == 'recv': cur += 1; best = max(best, cur)
+        elif e['k'] == 'done': cur -= 1
+    return best
+
 def describe(c):
     return dict(publisher=PKN[c['pubkind']], publisher_behaviour=PB[c['pub']], middlewares=c['mws'], handler_pre_settle=PRE[c['pre']], settled_by_subscriber_before_delivery=ST[c.get('arrive', 0)],
                 handler_outcome=['returns', 'fails with', 'panics'][c['outkind']], handler_outputs=c['outs'], value=(['string', 'error', 'nil', '-'][c['panicv']] if c['outkind'] == 2 else ['plain error', 'wrapped context.Canceled, message ctx alive', 'context.Canceled, message ctx cancelled', 'context.DeadlineExceeded, message ctx expired'][c['panicv']]),
@@ -47,7 +91,8 @@ def run(ctx):
     binary = C.build_harness()
     rounds = 1 if tier == 'quick' else 6
     for rnd in range(rounds):
-        data, _ = C.run_harness(binary, ['c02', '-seed', str(seed + rnd)], pid, 'c02_%d.json' % rnd)
+        full, _ = C.run_harness(binary, ['c02', '-seed', str(seed + rnd)], pid, 'c02_%d.json' % rnd)
+        data, groups = full['cases'], full.get('groups') or []
         good = []
         for c in data:
             c['trace'] = c.get('trace') or []
@@ -81,8 +126,36 @@ def run(ctx):
             for i in r['R_mis']:
                 res.mismatches.append(dict(kind='Corr.C02.c02_mismatch (Handler/RouterHandle.v handle vs router.go handleMessage)',
                                            explained_by_violation=i in r['R_vio'], case=describe(chunk[i])))
+        # ---- the interleaved log of every handler's run loop: acceptor loop_monitor + strict replay on Handler/RouterLoop.v
+        goodids = set(c['id'] for c in good)
+        byid = {c['id']: c for c in data}
+        loops = []
+        for g in groups:
+            if not g.get('ids') or any(i not in goodids for i in g['ids']):
+                continue      # a message of this handler was already reported above (or not run)
+            lc = loop_case(g, byid)
+            if lc is None or len([e for e in g['log'] if e['k'] == 'recv']) != len(g['ids']):
+                res.violations.append(dict(signature='C02/loop-log', what='the interleaved log of a handler\'s run loop is not a log of received messages (a message handled without being received by the loop, or received twice)',
+                                           case=dict(publisher=PKN[g['pubkind']], log=[[e['k'], e.get('id', '')] + (e.get('ev') or []) for e in g['log']][:200])))
+                continue
+            loops.append((g, lc))
+            res.evaluations += 1
+            res.count('run loops (interleaved log replayed), max in flight=%d' % max_in_flight(g))
+            if max_in_flight(g) > 1:
+                res.nontrivial.add(('loop', g['pubkind'], tuple(g['mws']), tuple(lc[1]['messages_in_receive_order'])))
+        for part, chunk in enumerate(C.chunks(loops, 12)):
+            r = C.coq_eval(pid, 'loops_%d_%d' % (rnd, part), LOOP_HEADER + 'Definition cases : list loop_case := %s.\n' % C.coq_list([lc[0] for _, lc in chunk]),
+                           [('R_mis', 'loop_mismatches cases'), ('R_vio', 'loop_violations cases')])
+            for i in r['R_vio']:
+                res.violations.append(dict(signature='C02/loop-monitor', what='the interleaved log of a handler\'s run loop is rejected by loop_monitor (a message not received exactly once / events outside its receive..Done bracket / '
+                                           'its projection rejected by the C02 acceptor: settles once, Ack iff handled+published, one Publish call with exactly its own outputs)', case=chunk[i][1][1]))
+            for i, k in r['R_mis']:
+                res.mismatches.append(dict(kind='Corr.C02Loop.loop_replay (Handler/RouterLoop.v lstep vs router.go handler.run + handleMessage): ' + LOOP_KIND.get(k, str(k)),
+                                           explained_by_violation=i in r['R_vio'], case=chunk[i][1][1]))
         if rnd == 0 and good:
             res.sample(describe(good[5])); res.sample(describe(good[len(good) // 2]))
+            if loops:
+                res.sample(dict(kind='interleaved run-loop log (first 40 entries)', **dict(loops[0][1][1], interleaved_log=loops[0][1][1]['interleaved_log'][:40])))
     res.extra['exhaustive'] = True
     res.rule = ('the full matrix handler outcome {returns 0..3 messages incl. the consumed object itself, fails with/without messages with a plain error / context.Canceled / DeadlineExceeded while the message context is alive or dead, panics with string/error/nil} '
                 'x pre-settle {none, Ack, Nack} x publisher behaviour {accept, error, panic} x handler kind {publisher, AddNoPublisherHandler, nil publisher} '
